@@ -160,7 +160,8 @@ def run_model(outdir, eng, timeout=1800):
     model = os.path.join(outdir, eng + ".model")
     with open(cases) as fin, open(model, "w") as fout:
         try:
-            p = subprocess.run([os.path.join(BIN, "runner")], stdin=fin, stdout=fout, stderr=subprocess.PIPE, timeout=timeout)
+            # extracted list functions are not tail-recursive: give the runner an unlimited stack
+            p = subprocess.run(["bash", "-c", "ulimit -s unlimited 2>/dev/null || ulimit -s 4000000; exec " + os.path.join(BIN, "runner")], stdin=fin, stdout=fout, stderr=subprocess.PIPE, timeout=timeout)
         except subprocess.TimeoutExpired:
             return False, "model runner timeout"
     if p.returncode != 0:
@@ -408,7 +409,7 @@ def check(pid, tier, seed):
             distinct += st["distinct_nontrivial"]
             for k, v in st["histogram"].items():
                 hist[eng + ":" + k] = hist.get(eng + ":" + k, 0) + v
-            for s in st["samples"]:
+            for s in (st["samples"] or []):
                 if len(samples) < 6:
                     samples.append(s)
             for f in oracle_failures(outdir, eng):
